@@ -6,6 +6,7 @@ import Nlmodel.Driver.ObjOps
 import Nlmodel.Driver.TreeGen
 import Nlmodel.Model.Session
 import Nlmodel.Driver.GcOps
+import Nlmodel.Model.Verifier
 open Nl
 
 /-- character classes: loaded from the table dumped by the harness from Rust's std
@@ -60,6 +61,31 @@ def emitTree (r : TreeGen.R) (b : Block) (layout : Nat) : String :=
       (fun (acc : TreeGen.R × List Nat) _ => let (r, k) := acc.1.below 40; (r, (if k < 17 then k else if k < 30 then 1 else 0) :: acc.2)) (r, [])
     b.sexp ++ " | " ++ hexText (render toks ks)
 
+def parseConstTok (t : String) : Option Const :=
+  match t.splitOn ":" with
+  | ["i", v] => v.toInt?.map .int
+  | ["f", "nan"] => some (.float F64.canonNaN)
+  | ["f", hx] => (parseHex64 hx.toList).map .float
+  | ["s", hx] => (unhexText hx).map .str
+  | ["fn", a, b] => match a.toNat?, b.toNat? with
+    | some x, some y => some (.fn x y)
+    | _, _ => none
+  | _ => none
+
+/-- run the verified checker on REAL bytecode (bytes and constant pool as printed by the harness) -/
+def verifyReal (code : String) (consts : List String) : String :=
+  match code.toList with
+  | 'x' :: r =>
+    match unhexBytes r, (consts.filter (· ≠ "")).mapM parseConstTok with
+    | some bs, some cs =>
+      let bc : Bytecode := { code := (bs.map UInt8.toNat).toArray, consts := cs }
+      let cert := Verifier.inferCert bc
+      if Verifier.check bc cert then
+        "ok certified=" ++ toString (cert.ent.foldl (fun n e => if e.isSome then n + 1 else n) 0)
+      else "reject pc=" ++ toString (Verifier.firstFailure bc cert)
+    | _, _ => "bad-request"
+  | _ => "bad-request"
+
 def handle (cc : CharClass) (line : String) : String :=
   match line.trimAscii.toString.splitOn " " with
   | ["lex", h] =>
@@ -111,6 +137,7 @@ def handle (cc : CharClass) (line : String) : String :=
     | some ls => " ;; ".intercalate ((Session.lines cc b.toNat! {} ls).map Obs.show)
     | none => "bad-hex"
   | "gcops" :: ops => handleGcOps ops
+  | "verify" :: code :: "|" :: consts => verifyReal code consts
   | ["tables"] => modelTables
   | "obj" :: rest => handleObj rest
   | ["evalx", b, h] =>
